@@ -1,6 +1,7 @@
 package c12
 
 import (
+	"math"
 	"fmt"
 	"math/rand"
 	"sort"
@@ -69,9 +70,21 @@ func pickCaps(r *rand.Rand, f family) (capReq, capCtrl int) {
 		}
 		return 1 + r.Intn(3), 0
 	case famMQ:
+		if r.Intn(12) == 0 {
+			return hugeCap(r), hugeCap(r)
+		}
 		return r.Intn(4), r.Intn(4)
 	}
+	if r.Intn(12) == 0 {
+		return hugeCap(r), 0
+	}
 	return r.Intn(4), 0
+}
+
+// hugeCap: "all capacities" includes bounds beyond 32 bits; such a queue is bounded but never
+// full in a test (a capacity kept in a narrower integer turns into a small or an absent bound).
+func hugeCap(r *rand.Rand) int {
+	return []int{1<<32 + 1, 1<<32 + 2, 1<<32 + 3, 1 << 31, 1<<31 + 2, 1<<40 + 1, 1<<33 + 1, math.MaxInt, math.MaxInt - 1}[r.Intn(9)]
 }
 
 // conservation bookkeeping that does not go through the model: what the queue itself
